@@ -321,7 +321,7 @@ func c20FmtImps(d *gDefs, imps []c20Imp) string {
 // ---------------------------------------------------------------- generators
 
 func genVoters(t *rapid.T) (ids []string, w []uint64) {
-	n := rapid.IntRange(1, 6).Draw(t, "voters")
+	n := rapid.IntRange(1, 8).Draw(t, "voters")
 	wide := rapid.IntRange(0, 11).Draw(t, "wide") == 0
 	if wide {
 		n = rapid.IntRange(33, 40).Draw(t, "wideVoters")
@@ -433,66 +433,261 @@ func TestC20Round(t *testing.T) {
 				plan = append(plan, c20Imp{phase, -1, pick(5)})
 			}
 		}
-		// the generated import order (any interleaving of the two phases)
-		imps := plan
-		if len(plan) > 1 {
-			imps = rapid.Permutation(plan).Draw(t, "order")
-		}
-		pcgEvery := rapid.Bool().Draw(t, "precommitGhostEveryStep")
-		perm := imps
-		if len(imps) > 1 {
-			perm = rapid.Permutation(imps).Draw(t, "secondOrder")
-		}
+		c20Execute(t, tr, ids, w, d, vs, ph, plan, nv > 8)
+	})
+}
 
-		sum, err := c20Judge[uint64](d, ids, vs, imps, pcgEvery)
-		if err != nil {
-			t.Fatalf("uint64, generated order: %v\n%s weights %v ids %v\nimports: %s", err, tr.describe(), w, ids, c20FmtImps(d, imps))
+// c20Execute: draw the import order, a second order and the PrecommitGHOST call pattern, run the
+// round for both number widths, compare every step with the definitions, record labels.
+func c20Execute(t *rapid.T, tr *gTree, ids []string, w []uint64, d *gDefs, vs *VoterSet[string], ph [2]*gPhase, plan []c20Imp, wide bool, extraLabels ...string) {
+	// the generated import order (any interleaving of the two phases)
+	imps := plan
+	if len(plan) > 1 {
+		imps = rapid.Permutation(plan).Draw(t, "order")
+	}
+	pcgEvery := rapid.Bool().Draw(t, "precommitGhostEveryStep")
+	perm := imps
+	if len(imps) > 1 {
+		perm = rapid.Permutation(imps).Draw(t, "secondOrder")
+	}
+
+	sum, err := c20Judge[uint64](d, ids, vs, imps, pcgEvery)
+	if err != nil {
+		t.Fatalf("uint64, generated order: %v\n%s weights %v ids %v\nimports: %s", err, tr.describe(), w, ids, c20FmtImps(d, imps))
+	}
+	if tr.offset+8 < 1<<32 {
+		if _, err := c20Judge[uint32](d, ids, vs, imps, pcgEvery); err != nil {
+			t.Fatalf("uint32, generated order: %v\n%s weights %v ids %v\nimports: %s", err, tr.describe(), w, ids, c20FmtImps(d, imps))
 		}
-		if tr.offset+8 < 1<<32 {
-			if _, err := c20Judge[uint32](d, ids, vs, imps, pcgEvery); err != nil {
-				t.Fatalf("uint32, generated order: %v\n%s weights %v ids %v\nimports: %s", err, tr.describe(), w, ids, c20FmtImps(d, imps))
+	}
+	sum2, err := c20Judge[uint64](d, ids, vs, perm, pcgEvery)
+	if err != nil {
+		t.Fatalf("uint64, permuted order: %v\n%s weights %v ids %v\nimports: %s", err, tr.describe(), w, ids, c20FmtImps(d, perm))
+	}
+	if !sum.overPV && !sum.overPC && (sum.final != sum2.final || sum.finalPCG != sum2.finalPCG) {
+		t.Fatalf("ORACLE BUG: definitions depend on the order")
+	}
+
+	labels := append([]string(nil), extraLabels...)
+	labels = append(labels, c20ShapeLabels(d, ph, sum.final)...)
+	add := func(c bool, l string) {
+		if c {
+			labels = append(labels, l)
+		}
+	}
+	f := sum.final
+	add(f.ghost < 0, "ghost:none")
+	add(f.ghost == 0, "ghost:base")
+	add(f.ghost > 0, "ghost:above-base")
+	add(sum.ghostInEdge, "ghost:unvoted-block")
+	add(f.finalized >= 0, "finalized:some")
+	add(f.finalized > 0, "finalized:above-base")
+	add(f.ghost >= 0 && f.estimate < 0, "estimate:none")
+	add(f.estimate >= 0 && f.estimate != f.ghost, "estimate:below-ghost")
+	add(f.estimate >= 0 && f.estimate == f.ghost && d.cur(ph[1]) >= d.thr, "estimate:ghost-with-precommit-supermajority")
+	add(f.completable, "completable")
+	add(f.completable && f.estimate == f.ghost, "completable:estimate=ghost")
+	add(sum.finalPCG > 0, "precommit-ghost:above-base")
+	add(sum.sawDup, "import:duplicate")
+	add(sum.sawEqv, "import:equivocation")
+	add(sum.sawThird, "import:third-vote")
+	add(sum.sawOutsider, "import:non-member")
+	add(sum.overPV || sum.overPC, "over-tolerance(relaxed-oracle)")
+	add(d.eqw(ph[0]) > 0 && !sum.overPV, "prevote-equivocator-within-f")
+	add(d.eqw(ph[1]) > 0 && !sum.overPC, "precommit-equivocator-within-f")
+	add(d.total == 3*d.f+1, "total=3f+1(paper-cross-check)")
+	add(wide, "wide-voter-set(2nd-bitfield-word)")
+	add(tr.offset >= 1<<31-2, "numbers-near-2^31-or-2^32")
+	nontrivial := d.cur(ph[0]) >= d.thr && d.forks(ph[0])
+	add(nontrivial, "nontrivial")
+	kit.Case(fmt.Sprintf("%s w%v ids%v [%s]", tr.describe(), w, ids, c20FmtImps(d, imps)), nontrivial, labels...)
+}
+
+// c20ShapeLabels measures the shape class "GHOST inside the edges of several vote-nodes, with a vote-node on a sibling
+// fork hanging off the same lower vote-node": the class in which FindGHOST's force-constrained descendant filter matters.
+func c20ShapeLabels(d *gDefs, ph [2]*gPhase, f gState) []string {
+	t := d.t
+	voted := make([]bool, t.n()) // blocks with a direct vote in either phase (vote-nodes of the graph), and the base
+	voted[d.base] = true
+	for _, p := range ph {
+		for _, vs := range p.votes {
+			for _, b := range vs {
+				voted[b] = true
 			}
 		}
-		sum2, err := c20Judge[uint64](d, ids, vs, perm, pcgEvery)
-		if err != nil {
-			t.Fatalf("uint64, permuted order: %v\n%s weights %v ids %v\nimports: %s", err, tr.describe(), w, ids, c20FmtImps(d, perm))
-		}
-		if !sum.overPV && !sum.overPC && (sum.final != sum2.final || sum.finalPCG != sum2.finalPCG) {
-			t.Fatalf("ORACLE BUG: definitions depend on the order")
-		}
-
-		var labels []string
-		add := func(c bool, l string) {
-			if c {
-				labels = append(labels, l)
+	}
+	g := f.ghost
+	if g < 0 || voted[g] {
+		return nil
+	}
+	nodeBelow := func(b int) int {
+		for a := t.parent[b]; a >= 0; a = t.parent[a] {
+			if voted[a] {
+				return a
 			}
 		}
-		f := sum.final
-		add(f.ghost < 0, "ghost:none")
-		add(f.ghost == 0, "ghost:base")
-		add(f.ghost > 0, "ghost:above-base")
-		add(sum.ghostInEdge, "ghost:unvoted-block")
-		add(f.finalized >= 0, "finalized:some")
-		add(f.finalized > 0, "finalized:above-base")
-		add(f.ghost >= 0 && f.estimate < 0, "estimate:none")
-		add(f.estimate >= 0 && f.estimate != f.ghost, "estimate:below-ghost")
-		add(f.estimate >= 0 && f.estimate == f.ghost && d.cur(ph[1]) >= d.thr, "estimate:ghost-with-precommit-supermajority")
-		add(f.completable, "completable")
-		add(f.completable && f.estimate == f.ghost, "completable:estimate=ghost")
-		add(sum.finalPCG > 0, "precommit-ghost:above-base")
-		add(sum.sawDup, "import:duplicate")
-		add(sum.sawEqv, "import:equivocation")
-		add(sum.sawThird, "import:third-vote")
-		add(sum.sawOutsider, "import:non-member")
-		add(sum.overPV || sum.overPC, "over-tolerance(relaxed-oracle)")
-		add(d.eqw(ph[0]) > 0 && !sum.overPV, "prevote-equivocator-within-f")
-		add(d.eqw(ph[1]) > 0 && !sum.overPC, "precommit-equivocator-within-f")
-		add(d.total == 3*d.f+1, "total=3f+1(paper-cross-check)")
-		add(nv > 8, "wide-voter-set(2nd-bitfield-word)")
-		add(tr.offset >= 1<<31-2, "numbers-near-2^31-or-2^32")
-		nontrivial := d.cur(ph[0]) >= d.thr && d.forks(ph[0])
-		add(nontrivial, "nontrivial")
-		kit.Case(fmt.Sprintf("%s w%v ids%v [%s]", tr.describe(), w, ids, c20FmtImps(d, imps)), nontrivial, labels...)
+		return -1
+	}
+	kidsWithVotes := 0
+	for _, c := range t.children(g) {
+		for b := 0; b < t.n(); b++ {
+			if voted[b] && t.isAncOrEq(c, b) {
+				kidsWithVotes++
+				break
+			}
+		}
+	}
+	if kidsWithVotes < 2 {
+		return nil
+	}
+	labels := []string{"ghost-unvoted-between-two-vote-nodes"}
+	sib, sibPossible := false, false
+	for b := 0; b < t.n(); b++ {
+		if !voted[b] || b == d.base || t.isAncOrEq(g, b) || t.isAncOrEq(b, g) {
+			continue
+		}
+		if t.num(b) <= t.num(g) && nodeBelow(b) == nodeBelow(g) {
+			sib = true
+			if d.cur(ph[1]) >= d.thr && d.possible(ph[1], b) {
+				sibPossible = true
+			}
+		}
+	}
+	if sib {
+		labels = append(labels, "sibling-fork-node-at-or-below-ghost")
+	}
+	if sib && f.estimate == g && d.cur(ph[1]) >= d.thr {
+		labels = append(labels, "sibling-fork+estimate=unvoted-ghost+precommit-supermajority")
+		if f.completable {
+			labels = append(labels, "sibling-fork+estimate=unvoted-ghost+completable")
+			if sibPossible {
+				labels = append(labels, "sibling-fork-still-possible+completable(FindGHOST-filter-decides)")
+			}
+		}
+	}
+	return labels
+}
+
+// ---------------------------------------------------------------- trunk-and-sibling-fork shapes
+
+// genTrunkTree: a trunk root=0 <- 1 <- ... <- G of blocks nobody needs to vote for, 2-3 children of G (the first two
+// optionally one block longer), and a short fork (1-2 blocks) hanging off a trunk block strictly below G, so that its
+// first block is at or below G's height. Returns the tree, G, the blocks above G grouped per child of G, the sibling
+// fork blocks and the trunk blocks (root..G).
+func genTrunkTree(t *rapid.T) (tr *gTree, g int, upper [][]int, sib []int, trunk []int) {
+	l := rapid.IntRange(1, 4).Draw(t, "trunkLen")
+	parent := []int{-1}
+	trunk = []int{0}
+	for i := 1; i <= l; i++ {
+		parent = append(parent, i-1)
+		trunk = append(trunk, i)
+	}
+	g = l
+	nk := rapid.IntRange(2, 3).Draw(t, "childrenOfG")
+	for k := 0; k < nk; k++ {
+		parent = append(parent, g)
+		c := len(parent) - 1
+		grp := []int{c}
+		if k < 2 && rapid.Bool().Draw(t, "longerChild") {
+			parent = append(parent, c)
+			grp = append(grp, len(parent)-1)
+		}
+		upper = append(upper, grp)
+	}
+	at := rapid.IntRange(0, l-1).Draw(t, "forkOff")
+	parent = append(parent, at)
+	sib = []int{len(parent) - 1}
+	if rapid.Bool().Draw(t, "longerFork") {
+		parent = append(parent, sib[0])
+		sib = append(sib, len(parent)-1)
+	}
+	labels := rapid.Permutation(gLetters[:len(parent)]).Draw(t, "hashes")
+	off := rapid.SampledFrom([]uint64{0, 1, 7, 1000, 1<<31 - 2, 1<<32 - 12}).Draw(t, "offset")
+	return newGTree(parent, labels, off), g, upper, sib, trunk
+}
+
+// TestC20Trunk: rounds over trunk-and-sibling-fork trees with 4-8 voters. Prevotes are split over the children of the
+// unvoted trunk top G (so that the prevote-GHOST tends to be G itself, a block inside the edges of several vote-nodes),
+// the rest go to the sibling fork; precommits are spread over the children of G, the sibling fork and the trunk with
+// high participation, so that estimate = GHOST with every child of G impossible is frequent. Same oracle as TestC20Round.
+func TestC20Trunk(t *testing.T) {
+	defer kit.Flush()
+	rapid.Check(t, func(t *rapid.T) {
+		tr, g, upper, sib, trunk := genTrunkTree(t)
+		nv := rapid.IntRange(4, 8).Draw(t, "voters")
+		unit := rapid.IntRange(0, 9).Draw(t, "unit") < 6
+		names := make([]string, nv)
+		for i := range names {
+			names[i] = fmt.Sprintf("id%02d", i)
+		}
+		ids := rapid.Permutation(names).Draw(t, "ids")
+		w := make([]uint64, nv)
+		for i := range w {
+			w[i] = 1
+			if !unit {
+				w[i] = rapid.SampledFrom([]uint64{1, 1, 2, 3}).Draw(t, "w")
+			}
+		}
+		d := newGDefs(tr, 0, w)
+		vs := c20VoterSet(ids, w)
+		if vs == nil || uint64(vs.TotalWeight()) != d.total || uint64(vs.Threshold()) != d.thr {
+			t.Fatalf("NewVoterSet on distinct ids %v weights %v: nil or wrong total/threshold", ids, w)
+		}
+		// category profiles: weights of {above G, sibling fork, trunk (G and below), absent}
+		profiles := [2][][4]int{
+			{{7, 3, 0, 0}, {8, 2, 0, 0}, {6, 3, 1, 0}, {9, 1, 0, 0}, {5, 3, 1, 1}},               // prevotes
+			{{4, 4, 1, 1}, {5, 4, 0, 1}, {6, 2, 1, 1}, {2, 6, 1, 1}, {3, 3, 3, 1}, {5, 5, 0, 0}}, // precommits
+		}
+		pickIn := func(cat int) int {
+			switch cat {
+			case 0:
+				grp := upper[rapid.IntRange(0, len(upper)-1).Draw(t, "child")]
+				return grp[rapid.IntRange(0, len(grp)-1).Draw(t, "inChild")]
+			case 1:
+				return sib[rapid.IntRange(0, len(sib)-1).Draw(t, "inFork")]
+			}
+			// trunk: mostly strictly below G, so that G keeps having no vote-node of its own
+			if rapid.IntRange(0, 3).Draw(t, "onG") == 0 {
+				return g
+			}
+			return trunk[rapid.IntRange(0, len(trunk)-2).Draw(t, "inTrunk")]
+		}
+		ph := [2]*gPhase{newGPhase(nv), newGPhase(nv)}
+		var plan []c20Imp
+		for phase := 0; phase < 2; phase++ {
+			prof := rapid.SampledFrom(profiles[phase]).Draw(t, "profile")
+			var cats []int
+			for c, k := range prof {
+				for i := 0; i < k; i++ {
+					cats = append(cats, c)
+				}
+			}
+			p := ph[phase]
+			for v := 0; v < nv; v++ {
+				cat := rapid.SampledFrom(cats).Draw(t, "category")
+				if cat == 3 {
+					continue
+				}
+				first := pickIn(cat)
+				p.add(v, first)
+				plan = append(plan, c20Imp{phase, v, first})
+				switch rapid.IntRange(0, 11).Draw(t, "extra") {
+				case 0:
+					plan = append(plan, c20Imp{phase, v, first})
+				case 1:
+					second := pickIn(rapid.IntRange(0, 2).Draw(t, "secondCategory"))
+					if second != first && d.eqw(p)+d.w[v] > d.f {
+						second = first // stay within the tolerated equivocating weight
+					}
+					p.add(v, second)
+					plan = append(plan, c20Imp{phase, v, second})
+				}
+			}
+			if rapid.IntRange(0, 19).Draw(t, "outsider") == 0 {
+				plan = append(plan, c20Imp{phase, -1, pickIn(rapid.IntRange(0, 2).Draw(t, "outsiderCategory"))})
+			}
+		}
+		c20Execute(t, tr, ids, w, d, vs, ph, plan, false, "shape:trunk-and-sibling-fork")
 	})
 }
 
@@ -665,5 +860,32 @@ func TestC20Regressions(t *testing.T) {
 			t.Fatalf("regression %d (uint32): %v", i, err)
 		}
 		kit.Case(fmt.Sprintf("regression %d", i), true, "regression")
+	}
+	// genesis-A-B-{U,V} plus genesis-S, 7 unit voters (threshold 5): prevotes a,b,c->U e,f->V d,g->S (GHOST = B, a block
+	// inside the edges of the vote-nodes U and V), precommits a,b->U e,f->V c,d,g->S: estimate = B, no child of B can
+	// still be precommitted, the sibling fork S can: completable by the definitions.
+	{
+		tr := newGTree([]int{-1, 0, 1, 2, 2, 0}, []string{"G0", "A", "B", "U", "V", "S"}, 3)
+		w := []uint64{1, 1, 1, 1, 1, 1, 1}
+		ids := []string{"a", "b", "c", "d", "e", "f", "g"}
+		d := newGDefs(tr, 0, w)
+		vs := c20VoterSet(ids, w)
+		imps := []c20Imp{{0, 0, 3}, {0, 1, 3}, {0, 2, 3}, {0, 4, 4}, {0, 5, 4}, {0, 3, 5}, {0, 6, 5},
+			{1, 0, 3}, {1, 1, 3}, {1, 4, 4}, {1, 5, 4}, {1, 2, 5}, {1, 3, 5}, {1, 6, 5}}
+		sum, err := c20Judge[uint64](d, ids, vs, imps, true)
+		if err != nil {
+			t.Fatalf("regression sibling-fork: %v", err)
+		}
+		if sum.final.ghost != 2 || sum.final.estimate != 2 || !sum.final.completable {
+			t.Fatalf("ORACLE: sibling-fork regression expects ghost=estimate=B completable, definitions give %s", d.fmtState(sum.final))
+		}
+		var rev []c20Imp
+		for i := len(imps) - 1; i >= 0; i-- {
+			rev = append(rev, imps[i])
+		}
+		if _, err := c20Judge[uint32](d, ids, vs, rev, false); err != nil {
+			t.Fatalf("regression sibling-fork (reversed, uint32): %v", err)
+		}
+		kit.Case("regression sibling-fork", true, "regression")
 	}
 }
